@@ -94,3 +94,102 @@ def acyclic_get(cx):
         return z3.And(z3.Length(r.t) == vf.t + 1, pv(r.t[vf.t]) == sol.t, pc(r.t[vf.t]),
                       z3.ForAll([j], z3.Implies(z3.And(0 <= j, j < vf.t), z3.And(pv(r.t[j]) == ITER(j, idx), pc(r.t[j]) == (n.t <= z3.ToReal(j))))))
     cx.ensures(post)
+
+
+def _summation_contract(cx, what):
+    """shared: the CAS value model for sums.  INH(x) = the inhomogeneous part with n := x."""
+    INH = z3.Function('inhom_at', R, R)
+    return INH
+
+
+@contract('utils/solvers.py', 'solve_rec_by_summing', ['C14'])
+def solve_rec_by_summing_c(cx):
+    """x(n) = c*x(n-1) + inhom(n), x(0) = init  is solved as  c**n*init + SUM_{k=0}^{n-1} c**k * inhom(n-k)  (or an equivalent re-indexing:
+    SUM_{k=1}^{n} c**(n-k)*inhom(k)): the summand handed to the CAS and the summation range are exactly that."""
+    c = cx.real('rec_coeff'); x0 = cx.real('init_value'); N = z3.Real('n_symbol')
+    INH = z3.Function('inhom_at', R, R); OTHER = z3.Function('name_of_other_symbol', R, S)
+    inhom = V('real', INH(N), is_inhom=True)
+    cx.param(rec_coeff=c, init_value=x0, inhom_part=inhom)
+    fs = cx.seq('free_symbols_of_inhom', DR)
+    cx.attr('free_symbols', lambda ex, st, o: fs)
+    xq = z3.Real('xq')
+    cx.axiom(z3.ForAll([xq], OTHER(xq) != z3.StringVal('n')))
+    cx.call('str', lambda ex, st, r, a, kw: V('str', z3.If(toreal(a[0]) == N, z3.StringVal('n'), OTHER(toreal(a[0])))), trusted='only the symbol n is called "n"')
+    K = z3.Real('k_symbol')
+    cx.call('symbols', lambda ex, st, r, a, kw: VR(K) if (a and a[0].kind == 'str' and not z3.is_string_value(a[0].t)) else VR(N))
+    cx.call('get_unique_var', lambda ex, st, r, a, kw: V('str', ex.fresh(S, 'kname')))
+
+    def xreplace(ex, st, r, a, kw):
+        m = a[0]
+        if not r.get('is_inhom') or m.kind != 'map': raise OutOfReach('xreplace')
+        arr, dom = m.t
+        vals = []
+        t = arr
+        while z3.is_store(t): vals.append((t.arg(1), t.arg(2))); t = t.arg(0)
+        if len(vals) != 1: raise OutOfReach('xreplace with other than one substitution')
+        key, val = vals[0]
+        ex.need(st, key == N, 'substitution.replaces-n@0', 'ensures')
+        return VR(INH(val))
+    cx.call('xreplace', xreplace, trusted='Expr.xreplace({n: e}): the expression with n := e')
+    cx.call('simplify', lambda ex, st, r, a, kw: r)
+    cx.call('without_piecewise', lambda ex, st, r, a, kw: a[0])
+    EXPO = z3.Function('power', R, R, R)                 # a ** e for CAS expressions (exponents are expressions in n and k)
+    SUMV = z3.Function('sum_value', R, R, R, R)          # opaque value of the CAS sum (summand as a value at the symbolic k, lo, hi)
+
+    def summation(ex, st, r, a, kw):
+        summand = toreal(a[0]); lim = a[1]
+        if lim.kind != 'tuple' or len(lim.t) != 3: raise OutOfReach('summation limits')
+        kk, lo, hi = [toreal(x) for x in lim.t]
+        n = toreal(st['n']); cc = c.t
+        form_a = z3.And(summand == EXPO(cc, K) * INH(n - K), lo == 0, hi == n - 1)           # SUM_{k=0}^{n-1} c**k * inhom(n-k)
+        form_b = z3.And(summand == EXPO(cc, n - K) * INH(K), lo == 1, hi == n)               # SUM_{k=1}^{n} c**(n-k) * inhom(k)
+        ex.need(st, z3.And(kk == K, n == N, z3.Or(form_a, form_b)), 'particular-solution.summand-and-range@0', 'ensures')
+        return VR(SUMV(summand, lo, hi))
+    cx.call('summation', summation, trusted='sympy summation(f, (k, lo, hi)) = SUM_{k=lo}^{hi} f')
+    cx.set_hook('binop', lambda ex, st, op, a, b: VR(EXPO(toreal(a), toreal(b))) if op == 'Pow' else None)
+    cx.invariant(0, lambda st: z3.Or(st['n'].kind == 'none', toreal(st['n']) == N) if st['n'].kind != 'none' else z3.BoolVal(True))
+    cx.ensures(lambda st, r: z3.BoolVal(True))
+
+
+@contract('recurrences/solver/acyclic_solver.py', 'AcyclicSolver._solve_rec_by_summing', ['C04', 'C01'])
+def acyclic_solve_rec_by_summing(cx):
+    """x(n+1) = c*x(n) + inhom(n) valid from n = start, x(start) = first  is solved as
+    c**(n-start)*first + SUM_{k=start}^{n-1} c**(n-k-1) * inhom(k): the summand handed to the CAS and the summation range are exactly that, on the
+    direct path and on the term-by-term fallback (D27)."""
+    c = cx.real('rec_coeff'); first = cx.real('first_value'); start = cx.int('start'); N = z3.Real('n_symbol')
+    INH = z3.Function('inhom_at', R, R); EXPO = z3.Function('power', R, R, R); SUMV = z3.Function('sum_value', R, R, R, R)
+    inhom = V('real', INH(N), is_inhom=True)
+    me = cx.obj('AcyclicSolver', n=VR(N))
+    cx.param(self=me, rec_coeff=c, first_value=first, inhom_part=inhom, start=start)
+    K = z3.Real('k_symbol')
+    cx.call('symbols', lambda ex, st, r, a, kw: VR(K))
+
+    def xreplace(ex, st, r, a, kw):
+        m = a[0]
+        if not r.get('is_inhom') or m.kind != 'map': raise OutOfReach('xreplace')
+        t = m.t[0]; vals = []
+        while z3.is_store(t): vals.append((t.arg(1), t.arg(2))); t = t.arg(0)
+        if len(vals) != 1: raise OutOfReach('xreplace with other than one substitution')
+        ex.need(st, vals[0][0] == N, 'substitution.replaces-n@0', 'ensures')
+        return VR(INH(vals[0][1]))
+    cx.call('xreplace', xreplace, trusted='Expr.xreplace({n: e}): the expression with n := e')
+    cx.call('simplify', lambda ex, st, r, a, kw: r); cx.call('expand', lambda ex, st, r, a, kw: r)
+    cx.call('without_piecewise', lambda ex, st, r, a, kw: a[0])
+
+    def summation(ex, st, r, a, kw):
+        summand = toreal(a[0]); lim = a[1]
+        if lim.kind != 'tuple' or len(lim.t) != 3: raise OutOfReach('summation limits')
+        kk, lo, hi = [toreal(x) for x in lim.t]
+        ex.need(st, z3.And(kk == K, summand == EXPO(c.t, N - K - 1) * INH(K), lo == z3.ToReal(start.t), hi == N - 1), 'particular-solution.summand-and-range@0', 'ensures')
+        return VR(SUMV(summand, lo, hi))
+    cx.call('summation', summation, trusted='sympy summation(f, (k, lo, hi)) = SUM_{k=lo}^{hi} f')
+    cx.call('make_args', lambda ex, st, r, a, kw: V('terms', toreal(a[0])))
+
+    def add(ex, st, r, a, kw):
+        comp = a[0]
+        if comp.kind != 'comp' or comp.x['src'].kind != 'terms': raise OutOfReach('Add(...)')
+        cst = comp.x['st'].fork(); cst.vars[comp.x['target'].id] = VR(comp.x['src'].t)      # linearity: the sum over the terms is the sum of the whole summand
+        return ex.ev(comp.x['elt'], cst)
+    cx.call('Add', add, trusted='SUM over the terms of the expanded summand of SUM_k term = SUM_k summand (linearity)')
+    cx.set_hook('binop', lambda ex, st, op, a, b: VR(EXPO(toreal(a), toreal(b))) if op == 'Pow' else None)
+    cx.ensures(lambda st, r: toreal(r) == EXPO(c.t, N - z3.ToReal(start.t)) * first.t + SUMV(EXPO(c.t, N - K - 1) * INH(K), z3.ToReal(start.t), N - 1))
